@@ -214,11 +214,14 @@ def run_property(pid, tier, seed):
             und.append("stand-in %s::%s: generator error %r" % (pid, g["name"], e))
             continue
         fails, errors = [], []
+        confirmed_hangs = [0]
 
         def one(c):
             try:
                 r = invoke(binp, c)
                 msg = c["check"](r)
+                if msg and r.timed_out and confirmed_hangs[0] >= 2:
+                    return None      # two inputs that never end are already on record for this group: no more minute-long re-runs
                 if msg and r.timed_out:
                     # a time-out under load proves nothing: run the case again alone, with eight times the limit
                     with _ALONE:
@@ -230,6 +233,8 @@ def run_property(pid, tier, seed):
                     r2 = invoke(binp, c if not r.timed_out else dict(c, timeout=max(60.0, 8 * c.get("timeout", CASE_TIMEOUT))))
                     msg2 = c["check"](r2)
                     if msg2:
+                        if r2.timed_out:
+                            confirmed_hangs[0] += 1
                         return (c, r2, msg2)
                 return None
             except subprocess.TimeoutExpired:
